@@ -159,19 +159,38 @@ def _validated_return(fn: Function, rep: Report) -> None:
     rets = [n for n in cfg.nodes if isinstance(n.ast, ast.Return) and not n.copy]
     rep.require(len(rets) >= 1, f"R20.3: {fn.name} has no return")
     # the validity test: `if not (x and re.match(r"^[A-Z_][A-Z0-9_]*$", x.upper())): raise`
-    val_tests = []
+    L = Locals(fn.node)
+    val_tests = []  # (test node, text of the inlined test)
     for n in cfg.nodes:
-        if n.kind == "test" and "re.match" in norm(n.ast) and "[A-Z_][A-Z0-9_]*$" in norm(n.ast):
-            # true edge must raise
-            succ_true = [m for m, lab in cfg.succ[n.id] if lab == "true"]
-            if all(isinstance(cfg.nodes[m].ast, ast.Raise) for m in succ_true) and succ_true:
-                val_tests.append(n)
+        if n.kind != "test":
+            continue
+        ti = L.inline(n.ast)
+        neg = False
+        while True:
+            if isinstance(ti, ast.UnaryOp) and isinstance(ti.op, ast.Not):
+                ti, neg = ti.operand, not neg
+            elif isinstance(ti, ast.Call) and dotted(ti.func) == "bool" and len(ti.args) == 1:
+                ti = ti.args[0]
+            else:
+                break
+        ok_match = False
+        for c in ast.walk(ti):
+            if isinstance(c, ast.Call) and dotted(c.func) in ("re.match", "re.fullmatch") and len(c.args) >= 2 and const_str(c.args[0]) is not None:
+                if _identifier_regex(const_str(c.args[0]) or "", full=dotted(c.func) == "re.fullmatch"):
+                    ok_match = True
+        if not ok_match:
+            continue
+        # the branch on which the name is NOT valid must raise
+        invalid_lab = "true" if neg else "false"
+        succ = [m for m, lab in cfg.succ[n.id] if lab == invalid_lab]
+        if succ and all(isinstance(cfg.nodes[m].ast, ast.Raise) for m in succ):
+            val_tests.append((n, norm(ti)))
     for r in rets:
         var = norm(r.ast.value) if r.ast.value is not None else ""
-        ok = any(t.id in dom[r.id] and var in norm(t.ast) for t in val_tests)
+        ok = any(t.id in dom[r.id] and var in txt for t, txt in val_tests)
         # nothing reassigns the variable between the test and the return
         if ok:
-            t = [t for t in val_tests if t.id in dom[r.id]][-1]
+            t = [t for t, txt in val_tests if t.id in dom[r.id]][-1]
             between = [n for n in cfg.nodes if n.kind == "stmt" and isinstance(n.ast, (ast.Assign, ast.AugAssign)) and t.lineno < n.lineno < r.lineno
                        and var in norm(n.ast.targets[0] if isinstance(n.ast, ast.Assign) else n.ast.target)]
             if between:
@@ -182,7 +201,7 @@ def _validated_return(fn: Function, rep: Report) -> None:
             rep.violation("R20.3", f"{sub0} validated return", f"{fn.fq}|unvalidated-return|{var}",
                           f"`return {var}` is not protected by the function's identifier-validity check: an invalid member name can be returned", fn.loc(r.ast))
         # keyword suffix before the return
-        kw = [n for n in cfg.nodes if n.kind == "test" and "keyword.iskeyword" in norm(n.ast) and var in norm(n.ast) and n.id in dom[r.id]]
+        kw = [n for n in cfg.nodes if n.kind == "test" and "keyword.iskeyword" in norm(L.inline(n.ast)) and var in norm(L.inline(n.ast)) and n.id in dom[r.id]]
         if kw:
             rep.ok("R20.3", f"{sub0} keyword suffix", f"`{norm(kw[0].ast)}` dominates the return", fn.loc(kw[0].ast))
         else:
@@ -264,3 +283,64 @@ def _dedup_site(fn: Function, label: str, seen_hint: str, rep: Report) -> None:
         rep.violation("R20.2", sub, f"{fn.fq}|dedup|{label}|reassigned={reassigned}|recorded={recorded}|same={same}",
                       f"de-duplication is unsound: renames-in-loop={reassigned}, final-name-recorded-on-every-path={recorded}, "
                       f"recorded-name-is-the-tested-one={same}", fn.loc(w))
+
+
+def _identifier_regex(pat: str, full: bool) -> bool:
+    """Does the pattern (as used with re.match / re.fullmatch) accept only ASCII identifiers?  Parsed with re._parser."""
+    import re._parser as sre  # type: ignore[import]
+    from re._constants import AT, AT_BEGINNING, AT_BEGINNING_STRING, AT_END, AT_END_STRING, IN, LITERAL, MAX_REPEAT, MIN_REPEAT, NEGATE, RANGE, SUBPATTERN  # type: ignore[import]
+
+    try:
+        items = list(sre.parse(pat))
+    except Exception:
+        return False
+    while items and items[0][0] is AT and items[0][1] in (AT_BEGINNING, AT_BEGINNING_STRING):
+        items = items[1:]
+    anchored = False
+    while items and items[-1][0] is AT and items[-1][1] in (AT_END, AT_END_STRING):
+        items, anchored = items[:-1], True
+    if not full and not anchored:
+        return False
+    idc = set("abcdefghijklmnopqrstuvwxyzABCDEFGHIJKLMNOPQRSTUVWXYZ0123456789_")
+
+    def chars(op, av):
+        """set of characters one item can match, or None if not a plain ASCII-identifier class"""
+        if op is LITERAL:
+            return {chr(av)} if chr(av) in idc else None
+        if op is IN:
+            out = set()
+            for o, a in av:
+                if o is NEGATE:
+                    return None
+                if o is LITERAL:
+                    out.add(chr(a))
+                elif o is RANGE:
+                    out |= {chr(x) for x in range(a[0], a[1] + 1)}
+                else:
+                    return None
+            return out if out <= idc else None
+        return None
+
+    first = True
+    for op, av in items:
+        if op in (MAX_REPEAT, MIN_REPEAT):
+            lo, hi, sub = av
+            cs = set()
+            for o2, a2 in sub:
+                c2 = chars(o2, a2)
+                if c2 is None:
+                    return False
+                cs |= c2
+            if first and lo > 0 and cs & set("0123456789"):
+                return False
+            if first and lo == 0:
+                continue  # optional prefix: the next item is (also) first
+            first = False
+            continue
+        cs = chars(op, av)
+        if cs is None:
+            return False
+        if first and cs & set("0123456789"):
+            return False
+        first = False
+    return not first
